@@ -110,6 +110,9 @@ func LoadEngine(repo string, patterns []string, overlay map[string][]byte) (*Eng
 	}
 	e.macroSpecs = os.Getenv("GOVC_MACRO") != ""
 	e.bindContracts()
+	if len(e.loadErrs) > 0 {
+		return e, fmt.Errorf("contract errors: %s", strings.Join(e.loadErrs, "; "))
+	}
 	return e, nil
 }
 
@@ -177,7 +180,7 @@ func (e *Engine) bindContracts() {
 					pp = m[parts[0]]
 				}
 				if pp != "" {
-					e.methFC[pp+"::"+parts[1]] = fc
+					e.regExtern(pp+"::"+parts[1], fc)
 					continue
 				}
 			}
@@ -199,10 +202,10 @@ func (e *Engine) bindContracts() {
 					e.loadErrs = append(e.loadErrs, "extern "+fc.Key+": unknown package alias")
 					continue
 				}
-				e.methFC[pp+"::"+parts[1]+"."+parts[2]] = fc
+				e.regExtern(pp+"::"+parts[1]+"."+parts[2], fc)
 				continue
 			}
-			e.methFC[fc.PkgPath+"::"+fc.Key] = fc
+			e.regExtern(fc.PkgPath+"::"+fc.Key, fc)
 			continue
 		}
 		fn := e.findFunc(fc.PkgPath, fc.Key)
@@ -657,6 +660,7 @@ const preamble = `(set-logic ALL)
 (declare-fun bat (Int Int) Int)
 (declare-fun bslice (Int Int Int) Int)
 (declare-fun bconcat (Int Int) Int)
+(assert (forall ((a Int) (b Int)) (! (= (blen (bconcat a b)) (+ (blen a) (blen b))) :pattern ((bconcat a b)))))
 (declare-fun bcmp (Int Int) Int)
 (assert (forall ((a Int) (b Int)) (! (and (<= (- 1) (bcmp a b)) (<= (bcmp a b) 1) (= (bcmp a b) (- (bcmp b a))) (= (= (bcmp a b) 0) (= a b))) :pattern ((bcmp a b)))))
 (assert (forall ((a Int) (b Int) (c Int)) (! (=> (and (<= (bcmp a b) 0) (<= (bcmp b c) 0)) (and (<= (bcmp a c) 0) (=> (or (< (bcmp a b) 0) (< (bcmp b c) 0)) (< (bcmp a c) 0)))) :pattern ((bcmp a b) (bcmp b c)))))
@@ -774,13 +778,14 @@ func (x *Exec) emit(st *State, label, kind, src, goal string) {
 }
 
 type FuncResult struct {
-	Key        string
-	Obls       []*Obligation
-	Paths      int
-	Aborted    string
-	Notes      []string
-	BindErrors []string
-	Assumed    []string
+	Key         string
+	Obls        []*Obligation
+	Paths       int
+	Aborted     string
+	Notes       []string
+	BindErrors  []string
+	ExtraCovers []*Obligation
+	Assumed     []string
 }
 
 // VerifyFunction generates all obligations of one function under contract.
@@ -943,8 +948,16 @@ func (e *Engine) VerifyFunction(fc *FuncContract) *FuncResult {
 		if n < k {
 			k = n
 		}
+		picked := map[int]bool{}
 		for i := 0; i < k; i++ {
 			x.obls = append(x.obls, x.retCoverCands[i*n/k])
+			picked[i*n/k] = true
+		}
+		// second stage (used only when all of the above are unsat): up to 60 further returning paths
+		for i, c := range x.retCoverCands {
+			if !picked[i] && len(res.ExtraCovers) < 60 {
+				res.ExtraCovers = append(res.ExtraCovers, c)
+			}
 		}
 	}
 	res.Obls = x.obls
@@ -1502,4 +1515,43 @@ func (e *Engine) exceptPkgs(pkgPath string, ce *ast.CallExpr) []string {
 	}
 	sort.Strings(out)
 	return out
+}
+
+// regExtern registers an extern contract; two contract files giving different contracts to the same method or function
+// would make the result depend on load order, so that is an error unless the two are textually the same clauses.
+func (e *Engine) regExtern(key string, fc *FuncContract) {
+	if prev, ok := e.methFC[key]; ok && prev != fc {
+		if !sameClauses(prev, fc) {
+			e.loadErrs = append(e.loadErrs, fmt.Sprintf("conflicting extern contracts for %s: %s:%d and %s:%d", key, prev.File, prev.Line, fc.File, fc.Line))
+		}
+		// identical: keep the first (deterministic by file name)
+		if prev.File+fmt.Sprint(prev.Line) < fc.File+fmt.Sprint(fc.Line) {
+			return
+		}
+	}
+	e.methFC[key] = fc
+}
+
+func sameClauses(a, b *FuncContract) bool {
+	sig := func(f *FuncContract) string {
+		var sb strings.Builder
+		for _, c := range f.Requires {
+			sb.WriteString("R:" + c.Src + ";")
+		}
+		for _, c := range f.Ensures {
+			sb.WriteString("E:" + c.Src + ";")
+		}
+		for _, c := range f.Grants {
+			sb.WriteString("G:" + c.Src + ";")
+		}
+		for _, c := range f.Assigns {
+			sb.WriteString("A:" + c.Src + ";")
+		}
+		for _, s := range f.Sets {
+			sb.WriteString("S:" + s.Ghost + "=" + s.Expr.Src + "/" + s.Cond.Src + ";")
+		}
+		sb.WriteString(fmt.Sprint(f.AssignsNone, f.Pure, f.PureRefs, f.Trusted))
+		return sb.String()
+	}
+	return sig(a) == sig(b)
 }
